@@ -452,8 +452,11 @@ def run_case(case, keep_log=False):
         envD = Env(sched["seed"], sched["faults"])
         outD, _n = run_traced(model["fn"], bind(params, envD, sched["a"], sched["b"]), LINE_BUDGET_R)
         stats["model_runs"] = stats.get("model_runs", 0) + 1
-        if norm:
-            outD, other = _name_norm(outD), (other[0], _name_norm(other[1]))
+        # NameError and UnboundLocalError are identified here for T as well: a mismatch
+        # that is the model's behaviour except that a name whose only store was pruned
+        # as unreachable raises NameError is two known findings at once (desugaring +
+        # dead-store-pruned; met by the thorough run of seed 20260924)
+        outD, other = _name_norm(outD), (other[0], _name_norm(other[1]))
         ok = compare((envD.history, outD), other, "X") is None
         if ok:
             stats["model_explains"] = stats.get("model_explains", 0) + 1
